@@ -41,8 +41,40 @@ type cse struct {
 
 var typeByName = map[string]reflect.Type{}
 
+// bigNode is the element of the long self-referential list (see bigListCase): its Peers field takes the list
+// by value.
+type bigNode struct {
+	ID    int        `hprose:"id"`
+	Peers []*bigNode `hprose:"peers"`
+}
+
+// bigListCase: a list of n objects, longer than any buffer configuration plus the decoder's slack can hold,
+// whose first object refers back to the list itself (r0;) in a field that takes the list by value. The copy
+// made by that reference is taken while the list is being read: what it holds in the end (length, and whether
+// it still shares the list's array) depends on how the decoder sized the slice - which must not depend on how
+// much input was buffered at that moment.
+func bigListCase(n int) cse {
+	var b []byte
+	b = append(b, fmt.Sprintf("a%d{c7\"BigNode\"2{s2\"id\"s5\"peers\"}", n)...)
+	for i := 0; i < n; i++ {
+		id := fmt.Sprintf("i%d;", i)
+		if i < 10 {
+			id = fmt.Sprint(i)
+		}
+		peers := "n"
+		if i == 0 || i == n/2 {
+			peers = "r0;"
+		}
+		b = append(b, ("o0{" + id + peers + "}")...)
+	}
+	b = append(b, "}i42;"...)
+	return cse{Bytes: b, Types: []string{"[]*main.bigNode"}, Kind: "list-longer-than-the-buffer-referring-to-itself"}
+}
+
 func registerTypes() {
 	add := func(t reflect.Type) { typeByName[t.String()] = t }
+	hio.RegisterName("BigNode", (*bigNode)(nil))
+	add(reflect.TypeOf([]*bigNode(nil)))
 	for _, t := range gen.Universe(1, true) {
 		add(t)
 	}
@@ -378,6 +410,10 @@ type violRec struct {
 type job struct {
 	Cases    []cse `json:"cases"`
 	Thorough bool  `json:"thorough"`
+	// PatMod > 0: this job takes the patterns whose index is PatRem modulo PatMod (a long stream is spread
+	// over several jobs)
+	PatMod int `json:"pat_mod,omitempty"`
+	PatRem int `json:"pat_rem,omitempty"`
 }
 
 type result struct {
@@ -423,7 +459,9 @@ func runCases(j job) result {
 	res := result{Viol: []violRec{}}
 	byKey := map[string]int{}
 	for ci, c := range j.Cases {
-		res.Cases++
+		if j.PatRem == 0 {
+			res.Cases++
+		}
 		pats := patterns(len(c.Bytes), c.Boundary, j.Thorough)
 		variants := 2
 		allIface := true
@@ -443,7 +481,10 @@ func runCases(j job) result {
 			}
 			for _, cfg := range bufCfgs {
 				seen := map[uint64]bool{}
-				for _, p := range pats {
+				for pi, p := range pats {
+					if j.PatMod > 0 && pi%j.PatMod != j.PatRem {
+						continue
+					}
 					res.Evals++
 					got, rd := streamed(c, variant, cfg, p)
 					if !seen[rd.trace] {
@@ -685,6 +726,14 @@ func buildCases(thorough bool) (cases []cse, info map[string]interface{}) {
 	for _, c := range bc {
 		add(c)
 	}
+	big := bigListCase(1500)
+	add(big)
+	for _, k := range []int{len(big.Bytes) / 3, len(big.Bytes) - 6} {
+		t := big
+		t.Bytes, t.Trunc = big.Bytes[:k], true
+		add(t)
+	}
+	info["long_self_referential_lists"] = 3
 	n4 := len(cases)
 	// truncations of the boundary streams next to the boundary
 	for _, c := range bc {
@@ -742,6 +791,12 @@ func main() {
 	weight := 0
 	for _, c := range cases {
 		w := len(c.Bytes) * len(c.Bytes)
+		if len(c.Bytes) > 4096 {
+			for r := 0; r < 32; r++ {
+				jobs = append(jobs, job{Cases: []cse{c}, Thorough: thorough, PatMod: 32, PatRem: r})
+			}
+			continue
+		}
 		if weight+w > 40000 && len(group) > 0 {
 			jobs = append(jobs, job{Cases: group, Thorough: thorough})
 			group, weight = nil, 0
